@@ -1,7 +1,7 @@
 #include "CppUTest/TestHarness.h"
 #include "CppUTest/TeamCityTestOutput.h"
 
-TeamCityTestOutput::TeamCityTestOutput() : currtest_(NULLPTR), currGroup_()
+TeamCityTestOutput::TeamCityTestOutput() : currtest_(NULLPTR), currGroup_(), groupStarted_(false)
 {
 }
 
@@ -40,11 +40,12 @@ void TeamCityTestOutput::printCurrentGroupStarted(const UtestShell& test)
     print("##teamcity[testSuiteStarted name='");
     printEscaped(currGroup_.asCharString());
     print("']\n");
+    groupStarted_ = true;
 }
 
 void TeamCityTestOutput::printCurrentGroupEnded(const TestResult& /*res*/)
 {
-    if (currGroup_ == "")
+    if (!groupStarted_)
         return;
 
     print("##teamcity[testSuiteFinished name='");
